@@ -44,6 +44,12 @@ CHECKS = {
         note="Keyword table in harness/ref/colortable.py (three independent transcriptions agree); stdlib colorsys for HSL; 1-per-channel tolerance where CSS leaves rounding open; alpha handling of the rgb/bgr integer setters not judged.",
         ref="5/C13",
     ),
+    "C11": dict(
+        technique="property-based testing: exhaustive enumeration of the 31 preserveAspectRatio cells x 6 size-supply routes, generated sizes, against the 8.2 algorithm in exact rationals plus an independent geometric predicate",
+        text="All 10 align values x {absent, meet, slice} plus the absent attribute, crossed with six ways of supplying the element size (direct call, Viewbox.transform, SVG.parse with units / percentages of a caller size / defaulted from the viewBox / nested svg with x,y) and generated sizes over six orders of magnitude; the matrix is compared with the SVG 2 8.2 algorithm evaluated in fractions.Fraction and with a geometric inside/covers/touches/aligned predicate; degenerate viewBoxes must give identity or disable rendering without raising. Exploration with an exhaustive finite part.",
+        note="x/y of the outermost svg are not generated; irregular whitespace inside preserveAspectRatio is outside the quantifier; tolerance is the 12-decimal text of the transform string.",
+        ref="5/C11",
+    ),
 }
 
 REASON_PENDING = "no check registered yet in this build; the design (DESIGN.md section 5) covers it with property-based testing"
